@@ -1,6 +1,6 @@
 (* C12 — how the statement paths change an ongoing transaction: frame lemmas for the read-only
    primitives, and one induction principle for exec_stmt used by every invariant proof. *)
-From V Require Import SQLCons.Model SQLCons.Basics.
+From V Require Import SQLCons.Model SQLCons.Spec SQLCons.Basics.
 From Coq Require Import ZArith Lia.
 From Coq Require Import ZifyN ZifyNat ZifyBool.
 Open Scope N_scope.
@@ -241,19 +241,6 @@ Proof.
   pose proof (Z.mod_pos_bound (z + 9223372036854775808) (2 * 9223372036854775808) ltac:(lia)).
   apply andb_true_intro; split; [apply Z.leb_le | apply Z.ltb_lt]; lia.
 Qed.
-
-(* ---------- statements that a tracked guard covers ---------- *)
-(* nn / ck say which of NOT NULL / CHECK the caller wants preserved.  With the repaired code every
-   statement is safe; with the code as it is, the statements that assign NULL (resp. a value violating
-   the CHECK) to v through UPDATE / ON CONFLICT DO UPDATE are not. *)
-Definition stmt_safe (g : cfg) (fx : fixes) (nn ck : bool) (s : stmt) : bool :=
-  match s with
-  | SIns (MDoUpdate true x) _ =>
-      (negb nn || fx_notnull fx || negb (k_notnull g && is_null x)) &&
-      (negb ck || fx_check fx || check_ok g x)
-  | SUpd _ true x => negb nn || fx_notnull fx || negb (k_notnull g && is_null x)
-  | _ => true
-  end.
 
 Section Preserve.
   Variables (g : cfg) (fx : fixes) (c : cstate) (nn ck : bool).
